@@ -144,7 +144,11 @@ package chain
 //@ func Stable.GetStableAccountDB(self, address)
 //@   ensures int(result) == self.stableDB[address]
 //@   modifies nothing
+// ... and a pending contract batch (a receive block and the descendant blocks it carries, added to the pool as ONE transaction)
+// is re-applied as one transaction too: a descendant block is never handed to the new manager on its own (it would take the
+// receive's place in the chain and the receive would then no longer link: the whole batch was dropped - fixed).
 //@ func accountPool.rebuild(ap, detailed) -> (err)
+//@   at-call Add assert[a-descendant-block-is-never-re-applied-on-its-own] block#2.BlockType != nom.BlockTypeContractSend
 //@   requires ap != nil && detailed != nil && detailed.Momentum != nil && ap.managers != nil
 //@   loop 2
 //@     invariant forall k int :: 0 <= k && k <= rangeindex#1 ==> (has(ap.managers, addresses[k]) ==> ap.managers[addresses[k]].base == ap.stable.stableDB[addresses[k]])
